@@ -157,6 +157,28 @@ func (e *evaluator) fmtOnce(code string) (string, error) {
 	return string(b), nil
 }
 
+var symlinkChecks int64
+
+// fmtThroughSymlink formats code in a file that is reached through a symbolic link and returns what reading the link gives.
+func (e *evaluator) fmtThroughSymlink(code string) (string, error) {
+	real := e.file + ".real"
+	link := e.file + ".link"
+	os.Remove(link)
+	if err := os.WriteFile(real, []byte(code), 0o644); err != nil {
+		lib.Fatal("%s", err)
+	}
+	if err := os.Symlink(filepath.Base(real), link); err != nil {
+		lib.Fatal("%s", err)
+	}
+	defer os.Remove(link)
+	defer os.Remove(real)
+	if _, err := format.Format(e.cfg, []string{link}, true, true); err != nil {
+		return "", err
+	}
+	b, err := os.ReadFile(link)
+	return string(b), err
+}
+
 type result struct {
 	Status    string // skipped-rejected | formatter-error | ok | violation
 	Effect    string
@@ -195,6 +217,14 @@ func (e *evaluator) check(p prog) result {
 	res := result{Status: "ok", Formatted: f1, Changed: f1 != p.Code}
 	viol := func(effect, detail string) result {
 		return result{Status: "violation", Effect: effect, Detail: detail, Formatted: f1, Changed: true}
+	}
+	// the write-back: a BUILD file that is a symlink (a generated or shared file) must end up with the same text as a
+	// regular one - checked where the formatted text is shorter than the original (a write that does not truncate shows there)
+	if len(f1) < len(p.Code) && (p.Fam == "subinclude" || len(p.Code)%3 == 0) { // (a deterministic third of the other families)
+		atomic.AddInt64(&symlinkChecks, 1)
+		if f2, err := e.fmtThroughSymlink(p.Code); err != nil || f2 != f1 {
+			return viol("write-back-through-symlink-differs", fmt.Sprintf("formatting a symlinked file leaves %q (err %v); formatting a regular file leaves %q", f2, err, f1))
+		}
 	}
 	if p.SyntaxOnly {
 		if _, err := e.p.ParseData([]byte(f1), "verif_c38_input.build"); err != nil {
@@ -1124,7 +1154,7 @@ func main() {
 		Rule:               "cases are distinct generated files; non-trivial = accepted by asp AND actually changed by the formatter (or violating)",
 		Samples:            samples.List(),
 		Exhaustive:         !capped.Load(),
-		Extra:              map[string]any{"families": stats, "formatter_errors": fmtErrFeat, "real_subinclude_programs_compared": realSubPrograms},
+		Extra:              map[string]any{"families": stats, "formatter_errors": fmtErrFeat, "real_subinclude_programs_compared": realSubPrograms, "write_backs_through_a_symlink_compared": atomic.LoadInt64(&symlinkChecks)},
 	})
 }
 
